@@ -23,7 +23,7 @@ func init() { core.Register(c07{}) }
 func (c07) ID() string    { return "C07" }
 func (c07) Level() string { return "fault_enumeration" }
 func (c07) Rule() string {
-	return "cases = merge scenarios (history of puts/deletes/batches over small files; variants: plain, all keys deleted (empty output), mostly dead (fewer output files), oversized record, reopened with smaller limit (merge abandoned), second merge over an already adopted one); at EVERY hooked event (fs.mkdir/removeall/rename, io.open/write/sync/close/truncate/map, named points) inside Merge and inside the adopting Open a byte-exact image of data dir + merge dir is taken and reopened twice; every image must recover exactly the acknowledged mapping S_a; every 6th image taken inside Merge is then used further (half of the keys deleted, a new Merge run to completion, adopted, restarted twice: what an interrupted merge left behind must not leak into a later one); if the image held a finished (decodable) marker, the merge directory must be gone after the first reopen and the second reopen must not change the set of files; for events during adoption the retry Open of the image is itself imaged at each of its events (second crash during the retry). Non-trivial: >=1 image taken inside adoption with >=2 data files renamed and >=1 nested image; distinct = hash of (scenario, config, op list)"
+	return "cases = merge scenarios (history of puts/deletes/batches over small files; variants: plain, all keys deleted (empty output), mostly dead (fewer output files), oversized record, reopened with smaller limit (merge abandoned), second merge over an already adopted one); at EVERY hooked event (fs.mkdir/removeall/rename, io.open/write/sync/close/truncate/map, named points) inside Merge and inside the adopting Open a byte-exact image of data dir + merge dir is taken and reopened twice; every image must recover exactly the acknowledged mapping S_a; every 6th image taken inside Merge is then used further (half of the keys deleted, a new Merge run to completion, adopted, restarted twice: what an interrupted merge left behind must not leak into a later one); if the image held a finished (decodable) marker, the merge directory must be gone after the first reopen and the second reopen must not change the set of files; for events during adoption the retry Open of the image is itself imaged at each of its events (second crash during the retry; beyond 6000 nested images in one case only every fifth further event is imaged). Non-trivial: >=1 image taken inside adoption with >=2 data files renamed and >=1 nested image; distinct = hash of (scenario, config, op list)"
 }
 func (c07) Assumptions() []string {
 	return []string{"process-death images only (power loss is outside this property's quantifier)", "sequential: no writer in flight during the imaged Merge"}
@@ -40,7 +40,14 @@ type c07Case struct {
 
 var c07Scenarios = []string{"plain", "all-deleted", "mostly-dead", "oversized", "smaller-limit", "batchy", "plain", "mostly-dead"}
 
-func (c07) CaseBudget(string) time.Duration { return 900 * time.Second }
+func (c07) CaseBudget(tier string) time.Duration {
+	// measured: the heaviest thorough case needs ~12 min of one worker on an idle machine and
+	// more than 15 under load; a watchdog firing is only ever inconclusive or a reproduced hang
+	if tier == "thorough" {
+		return 3600 * time.Second
+	}
+	return 900 * time.Second
+}
 
 func (c07) Cases(tier string, seed uint64) []core.Case {
 	n := 16
@@ -122,6 +129,7 @@ func (c07) Run(c core.Case, w *core.Worker) core.Result {
 		return ""
 	}
 	// nested crash during the retry
+	nestedSeen := 0
 	cr.nested = func(img2 string, ev mon.Event) {
 		if phase != "adoption" {
 			return
@@ -135,6 +143,13 @@ func (c07) Run(c core.Case, w *core.Worker) core.Result {
 			// the retry is imaged at its directory-level steps and named points
 			// (the adoption sequence); plain file loading is covered by the outer level
 			if sub.busy || !(strings.HasPrefix(e2.Kind, "fs.") || e2.Kind == "point") {
+				return
+			}
+			// cost bound (count-based, so the verdict does not depend on time): beyond 6000
+			// nested images in one case only every fifth further event is imaged
+			nestedSeen++
+			if res.Counters["images_nested"] >= 6000 && nestedSeen%5 != 0 {
+				res.Add("nested_events_thinned_out", 1)
 				return
 			}
 			sub.busy = true
